@@ -207,3 +207,26 @@ package decoders
 //@ props C07 C08
 //@ ensures [starts-from-nothing] fresh(result) && result.file == file && result.config == cfg && result.decodedConfigHeaders == decodedConfigHeaders && result.ammoNum == 0 && result.passNum == 0 && result.pool != nil
 //@ at call bufio.NewReader assert [reads-the-file] arg(a0) == box(file)
+
+// ---------------------------------------------------------------- returning entries to the decoder's pool: only what the pool hands out again
+// (Scan takes *ammo.Ammo / *ammo.RawAmmo out of the pool with a type assertion: anything else in the pool would be a fault there)
+
+//@ func (d *uriDecoder) Release
+//@ props C03 C13
+//@ env pooltype(d.pool, *ammo.Ammo)
+//@ ensures [only-decoder-entries-are-pooled] imp(!typeis(a, *ammo.Ammo), calls(d.pool.Put) == 0)
+
+//@ func (d *uripostDecoder) Release
+//@ props C03 C13
+//@ env pooltype(d.pool, *ammo.Ammo)
+//@ ensures [only-decoder-entries-are-pooled] imp(!typeis(a, *ammo.Ammo), calls(d.pool.Put) == 0)
+
+//@ func (d *jsonlineDecoder) Release
+//@ props C03 C13
+//@ env pooltype(d.pool, *ammo.Ammo)
+//@ ensures [only-decoder-entries-are-pooled] imp(!typeis(a, *ammo.Ammo), calls(d.pool.Put) == 0)
+
+//@ func (d *rawDecoder) Release
+//@ props C03 C13
+//@ env pooltype(d.pool, *ammo.RawAmmo)
+//@ ensures [only-decoder-entries-are-pooled] imp(!typeis(a, *ammo.RawAmmo), calls(d.pool.Put) == 0)
